@@ -452,6 +452,17 @@ def stuck (s : St) : Bool := s.app = .spin && s.flag && !s.thr.isAlive && !s.ena
 
 def labels : List Lbl := [.app, .thr true, .thr false, .rcv, .peerClose]
 
+/-- **The peer closes while the accepting thread is still in its tail** (`on_connected` listeners, `shutdown/close` of the listening
+socket); NOT part of `step` (whose `peerClose` waits for that thread to end — the assumption stated in the header).  The receiver thread
+then runs its close sequence and the `_connection_closed` hook (`rcv` step, `closing`): it starts a new server thread although the old one
+is alive and still holds the listening socket; the new thread's `bind` fails with EADDRINUSE and it dies — in this model: no restart
+happens (`closing` restarts only when `thr` is dead).  Used by the witness `Props.C09.early_close_leaves_endpoint_deaf`. -/
+def earlyPeerClose (s : St) : Option St :=
+  if s.rcv = .run ∧ (s.thr = .listen ∨ s.thr = .shutdown) then some { s with rcv := .closing } else none
+
+/-- enabled, but nobody listens and nobody is connected: the endpoint can never be reached again -/
+def deaf (s : St) : Bool := s.enabled && !s.thr.isAlive && s.rcv = .off && s.app = .before
+
 end Server
 
 /-- breadth-first closure of a finite transition system given as a successor function (fuel = number of rounds) -/
